@@ -252,6 +252,7 @@ func (config *ConsumerGroupConfig) Validate() error {
 		config.Timeout = defaultTimeout
 	}
 
+	if verifOn { verifGroupConnect(config) }
 	if config.connect == nil {
 		config.connect = makeConnect(*config)
 	}
@@ -343,6 +344,7 @@ type Generation struct {
 // terminate.
 func (g *Generation) close() {
 	g.lock.Lock()
+	if verifOn { verifEvent("G.Close", g, g.closed, g.routines) }
 	if !g.closed {
 		close(g.done)
 		g.closed = true
@@ -357,6 +359,7 @@ func (g *Generation) close() {
 	if r > 0 {
 		<-g.joined
 	}
+	if verifOn { verifEvent("G.Closed", g) }
 }
 
 // Start launches the provided function in a go routine and adds accounting such
@@ -385,16 +388,19 @@ func (g *Generation) Start(fn func(ctx context.Context)) {
 	// such a case, fn should immediately exit because ctx.Err() will return
 	// ErrGenerationEnded.
 	if g.closed {
+		if verifOn { verifEvent("G.Start", g, false) }
 		go fn(genCtx{g})
 		return
 	}
 
 	// register that there is one more go routine that's part of this gen.
 	g.routines++
+	if verifOn { verifEvent("G.Start", g, true) }
 
 	go func() {
 		fn(genCtx{g})
 		g.lock.Lock()
+		if verifOn { verifEvent("G.FnExit", g, !g.closed, g.routines-1) }
 		// shut down the generation as soon as one function exits.  this is
 		// different from close() in that it doesn't wait for all go routines in
 		// the generation to exit.
@@ -463,6 +469,7 @@ func (g *Generation) CommitOffsets(offsets map[string]map[int]int64) error {
 // end of the generation.
 func (g *Generation) heartbeatLoop(interval time.Duration) {
 	g.Start(func(ctx context.Context) {
+		if verifOn { defer verifEvent("G.HbExit", g) }
 		g.log(func(l Logger) {
 			l.Printf("started heartbeat for group, %v [%v]", g.GroupID, interval)
 		})
@@ -499,6 +506,7 @@ func (g *Generation) heartbeatLoop(interval time.Duration) {
 // establish a new connection to the coordinator.
 func (g *Generation) partitionWatcher(interval time.Duration, topic string) {
 	g.Start(func(ctx context.Context) {
+		if verifOn { defer verifEvent("G.WatchExit", g, topic) }
 		g.log(func(l Logger) {
 			l.Printf("started partition watcher for group, %v, topic %v [%v]", g.GroupID, topic, interval)
 		})
@@ -659,6 +667,7 @@ func NewConsumerGroup(config ConsumerGroupConfig) (*ConsumerGroup, error) {
 	cg.wg.Add(1)
 	go func() {
 		cg.run()
+		if verifOn { verifEvent("CG.RunExit", cg) }
 		cg.wg.Done()
 	}()
 	return cg, nil
@@ -683,10 +692,12 @@ type ConsumerGroup struct {
 // releases all local resources used to participate in the consumer group.
 // Close will also end the current generation if it is still active.
 func (cg *ConsumerGroup) Close() error {
+	if verifOn { verifEvent("CG.CloseCall", cg) }
 	cg.closeOnce.Do(func() {
 		close(cg.done)
 	})
 	cg.wg.Wait()
+	if verifOn { verifEvent("CG.CloseRet", cg) }
 	return nil
 }
 
@@ -721,6 +732,7 @@ func (cg *ConsumerGroup) run() {
 	var err error
 	for {
 		memberID, err = cg.nextGeneration(memberID)
+		if verifOn { verifEvent("CG.NextGenRet", cg, memberID, verifGroupErr(err)) }
 
 		// backoff will be set if this go routine should sleep before continuing
 		// to the next generation.  it will be non-nil in the case of an error
@@ -758,16 +770,21 @@ func (cg *ConsumerGroup) run() {
 		// waiting to receive on the unbuffered error channel.
 		select {
 		case <-cg.done:
+			if verifOn { verifEvent("CG.Err", cg, verifGroupErr(err), false) }
 			return
 		case cg.errs <- err:
+			if verifOn { verifEvent("CG.Err", cg, verifGroupErr(err), true) }
 		}
 		// backoff if needed, being sure to exit cleanly if the CG is done.
 		if backoff != nil {
+			if verifOn { verifEvent("CG.Backoff", cg, "begin") }
 			select {
 			case <-cg.done:
 				// exit cleanly if the group is closed.
+				if verifOn { verifEvent("CG.Backoff", cg, "closed") }
 				return
 			case <-backoff:
+				if verifOn { verifEvent("CG.Backoff", cg, "end") }
 			}
 		}
 	}
@@ -838,6 +855,7 @@ func (cg *ConsumerGroup) nextGeneration(memberID string) (string, error) {
 		log:             cg.withLogger,
 		logError:        cg.withErrorLogger,
 	}
+	if verifOn { verifEvent("G.New", cg, &gen, generationID, memberID, verifGroupAssignments(gen.Assignments)) }
 
 	// spawn all of the go routines required to facilitate this generation.  if
 	// any of these functions exit, then the generation is determined to be
@@ -855,18 +873,22 @@ func (cg *ConsumerGroup) nextGeneration(memberID string) (string, error) {
 	// it's own teardown logic has been invoked, this would deadlock otherwise.
 	select {
 	case <-cg.done:
+		if verifOn { verifEvent("CG.SawClose", cg, &gen, "handing") }
 		gen.close()
 		return memberID, ErrGroupClosed // ErrGroupClosed will trigger leave logic.
 	case cg.next <- &gen:
+		if verifOn { verifEvent("CG.Handed", cg, &gen) }
 	}
 
 	// wait for generation to complete.  if the CG is closed before the
 	// generation is finished, exit and leave the group.
 	select {
 	case <-cg.done:
+		if verifOn { verifEvent("CG.SawClose", cg, &gen, "running") }
 		gen.close()
 		return memberID, ErrGroupClosed // ErrGroupClosed will trigger leave logic.
 	case <-gen.done:
+		if verifOn { verifEvent("CG.SawGenDone", cg, &gen) }
 		// time for next generation!  make sure all the current go routines exit
 		// before continuing onward.
 		gen.close()
@@ -1203,6 +1225,7 @@ func (cg *ConsumerGroup) makeAssignments(assignments map[string][]int32, offsets
 }
 
 func (cg *ConsumerGroup) leaveGroup(memberID string) error {
+	if verifOn { verifEvent("CG.Leave", cg, memberID) }
 	// don't attempt to leave the group if no memberID was ever assigned.
 	if memberID == "" {
 		return nil
